@@ -1,7 +1,7 @@
 (* C20 correspondence evaluator: runs the four model variants on a harness case and compares with what the real code
    returned (NewKeyCondition error, Scan ranges, MayBeInRange per probe, CheckInRange marks per rectangle). *)
 From Coq Require Import ZArith List Bool Arith.
-From OG Require Import C20.Model.
+From OG Require Import C20.Model C20.BloomModel.
 Import ListNotations.
 
 Record ccase := mkC {
@@ -88,3 +88,23 @@ Fixpoint results_from (k : nat) (cs : list ccase) : list (nat * list (nat * list
       if interesting e || c_detail c then (k, e) :: results_from (S k) r else results_from (S k) r
   end.
 Definition results := results_from 0.
+
+(* ---------- bloom-filter skip index stream ----------
+   an atom of a harness case: (on the reader's file column, is MATCHPHRASE, column in the reader's schema, measured
+   single-predicate hit of this segment). The kept/pruned decision of the compound condition is predicted from the
+   measured single-predicate hits with the model's expression evaluation (hash independent). *)
+Definition katom := (bool * bool * bool * bool)%type.
+Definition katom_hit (a : katom) : bool := let '(fc, im, _, h) := a in if fc && im then h else true.
+Definition katom_inschema (a : katom) : bool := let '(_, _, s, _) := a in s.
+Definition bloom_predict (e : sk katom) : bool := sk_kept katom_hit katom_inschema e.
+
+(* case = list over segments of (expression with that segment's hits, kept by the implementation) *)
+Fixpoint bloom_results_from (k : nat) (cs : list (list (sk katom * bool))) : list (nat * list bool) :=
+  match cs with
+  | [] => []
+  | c :: r =>
+      let pred := map (fun x => bloom_predict (fst x)) c in
+      if list_eqb Bool.eqb pred (map snd c) then bloom_results_from (S k) r
+      else (k, pred) :: bloom_results_from (S k) r
+  end.
+Definition bloom_results := bloom_results_from 0.
